@@ -236,7 +236,7 @@ class CB:
         """If value v derives from the dequeued job, return its tuple field index (0..3)."""
         b = self.b
         v0 = v
-        v = noref(b.trace(v, ('Clone::clone',)))
+        v = noref(b.trace(noref(v), ('Clone::clone', 'NonZero::get')))
         if self.sim:
             return None
         if v.kind == 'call' and v.key == self.deq.bb:
